@@ -14,6 +14,7 @@ pub mod props {
     pub mod c02;
     pub mod c04;
     pub mod c05;
+    pub mod c09;
     pub mod c10;
     pub mod c11;
     pub mod c13;
@@ -61,6 +62,7 @@ pub fn dispatch() -> Vec<(&'static str, RunFn, ReplayFn)> {
         ("C04", props::c04::run, props::c04::replay),
         ("C05", props::c05::run_c05, props::c05::replay_c05),
         ("C06", props::c05::run_c06, props::c05::replay_c06),
+        ("C09", props::c09::run, props::c09::replay),
         ("C10", props::c10::run, props::c10::replay),
         ("C11", props::c11::run, props::c11::replay),
         ("C13", props::c13::run, props::c13::replay),
